@@ -150,9 +150,12 @@ Theorem removeparam_never_optimized :
 Proof. split; reflexivity. Qed.
 (* Blocker::new builds the other seven lists with options.enable_optimizations, i.e. an engine built
    with optimisation on is blocker_optimize of the one built with it off *)
+(* (new_lists is emitted sorted by field name) *)
+Definition blocker_fields_sorted : list string :=
+  ["csp"; "exceptions"; "filters"; "filters_tagged"; "generic_hide"; "importants"; "redirects"; "removeparam"].
 Theorem new_lists_flags :
   map (fun x => (fst (fst x), snd x)) new_lists
-  = map (fun n => (n, named optimize_lists n)) blocker_fields.
+  = map (fun n => (n, named optimize_lists n)) blocker_fields_sorted.
 Proof. reflexivity. Qed.
 Theorem optimize_clears_cache : optimize_clears_regex_cache = true.
 Proof. reflexivity. Qed.
